@@ -27,6 +27,18 @@ def not_operator(p: bytes) -> bool:
     return re.fullmatch(rb"[\s_]*(?:&|\+|&amp;)[\s_]*", p) is None
 
 
+def randcase(r, s: bytes, p=0.25) -> bytes:
+    """Spelling in arbitrary letter case (for call forms whose documented pattern is case-insensitive)."""
+    x = r.random()
+    if x < 0.5:
+        return s
+    if x < 0.65:
+        return s.lower()
+    if x < 0.8:
+        return s.upper()
+    return bytes(c ^ 0x20 if (65 <= c <= 90 or 97 <= c <= 122) and r.random() < p else c for c in s)
+
+
 class Enc:
     name = ""
     type = ""
@@ -77,7 +89,7 @@ class B64Decode(Atob):
 
     def enc(self, p, r):
         q = r.choice([b'"', b"'"])
-        return r.choice([b"Base64Decode(", b"base64decode("]) + q + base64.b64encode(p) + q + b")"
+        return randcase(r, b"Base64Decode(") + q + base64.b64encode(p) + q + b")"
 
 
 class FromB64(Atob):
@@ -85,7 +97,7 @@ class FromB64(Atob):
 
     def enc(self, p, r):
         q = r.choice([b'"', b"'"])
-        return r.choice([b"", b"[System.Convert]::"]) + b"FromBase64String(" + q + base64.b64encode(p) + q + b")"
+        return randcase(r, r.choice([b"", b"[System.Convert]::"]) + b"FromBase64String(") + q + base64.b64encode(p) + q + b")"
 
 
 class HexLower(Enc):
@@ -115,7 +127,7 @@ class FromHex(Enc):
         h = p.hex().encode()
         if r.random() < 0.5:
             h = h.upper()
-        return r.choice([b"", b"[System.Convert]::"]) + b"FromHexString('" + h + b"')"
+        return randcase(r, r.choice([b"", b"[System.Convert]::"]) + b"FromHexString(") + b"'" + h + b"')"
 
 
 class Utf16(Enc):
